@@ -8,7 +8,13 @@ extracted model; every line (return value, all user variables, saved file text) 
 Property oracle (independent of the model, below): a Python reference for getopt_long scanning, C
 base-0 integer parsing, the documented meaning of every option type, the expected content of generated
 ini files, the save -> load -> save round trip into a fresh identically declared object, balanced
-sc_memory_status, and "no crash / sanitizer report / hang" on every file."""
+sc_memory_status, and "no crash / sanitizer report / hang" on every file.
+
+iniparser's dictionary (iniparser/dictionary.c: three parallel arrays, 128 slots, doubled by mem_double) holds one entry per
+section heading and per key of a file.  coq/C17/DictModel.v models the arrays, DictProofs.v proves that they refine the finite
+map of OptionsModel.v for every history, DictGen.v ties the model to the slices generated from dictionary.c (group DictC17).
+Large histories (hundreds of options / arguments, hand-written files with hundreds of keys) are sized by the number of
+dictionary entries to cross every doubling; histories on the dictionary API itself are compared slot by slot."""
 import os, sys, json, re, struct, ctypes, math
 import vlib
 
@@ -1098,6 +1104,8 @@ def aimed_histories(rng, hid0):
 # sections, every declared key looked up and compared with the value the text denotes.
 DICT_DOUBLINGS = (128, 256, 512)
 LARGE_TYPES = ["int", "size", "dbl", "str", "bool", "sw", "kvo"]
+LARGE_MAX_OPTIONS = {True: 150, False: 250}          # quick / thorough: own options of the main object (the model's guard and its
+                                                      # dump of all variables are superlinear in the number of options)
 
 
 def blank_decl(rng, shape, vo=32):
@@ -1121,7 +1129,7 @@ def large_decl(rng, nmain, nsub, twice, nested):
     """object 1 (nsub options; below it object 2 with two options under the prefix `in` if nested) is included in object 0 under
     one or two prefixes somewhere between the nmain own options of object 0.  Returns (decl, number of sections a saved
     file has, number of keys)"""
-    d = blank_decl(rng, "nested" if nested else "sub", vo=1024)
+    d = blank_decl(rng, "nested" if nested else "sub", vo=512)
     style = rng.choice([b"o%03d", b"Opt-%d", b"key_%d_x", b"v%d", b"LongOptionName%04d"])
 
     def one(o, k, name, ch=0, types=LARGE_TYPES):
@@ -1179,6 +1187,12 @@ def large_argv(rng, decl, frac, nargs):
         if it.ty in ("int", "size", "dbl") and rng.random() < 0.5:
             val = {"int": lambda: str(rng.randrange(INT_MIN, INT_MAX + 1)).encode(), "size": lambda: str(rng.randrange(0, 1 << 63)).encode(),
                    "dbl": lambda: repr(rng.uniform(-1e6, 1e6) * 10.0 ** rng.randrange(-30, 30)).encode()}[it.ty]()
+        if it.ty == "dbl":
+            # F-C17m (recorded): a double within 16 digits of DBL_MAX makes the load of the saved file fail as a whole
+            b_, _ = libc_strtod(val)
+            b2_, er_ = libc_strtod(libc_fmt16(b_))
+            if er_ and (b2_ & ((1 << 63) - 1)) == 0x7FF0000000000000 and (b_ & ((1 << 63) - 1)) < 0x7FF0000000000000:
+                val = b"1e308"
         if it.hasarg == 2 and rng.random() < 0.3:
             val = None
         nm = (b"--" + it.name) if it.name is not None else (b"-" + bytes([it.ch]))
@@ -1209,14 +1223,16 @@ def large_argv(rng, decl, frac, nargs):
     return [w for w in words if b"\0" not in w]
 
 
-def large_roundtrip_history(rng, hid, entries=None, nopt=None, nargs=None):
+def large_roundtrip_history(rng, hid, quick, entries=None, nopt=None, nargs=None):
     """entries: the number of dictionary entries the saved file shall have (sections + keys + count + arguments)"""
     twice, nested = rng.random() < 0.5, rng.random() < 0.4
     nsub = rng.randrange(2, 7)
     ncopies = 2 if twice else 1
     over = 2 + ncopies * (2 if nested else 1) + ncopies * (nsub + (2 if nested else 0)) + 1
     if entries is not None:
-        nargs = rng.randrange(0, max(1, min(301, entries - over - 60)))
+        # at most LARGE_MAX_OPTIONS options, the rest are arguments
+        lo = max(0, entries - over - LARGE_MAX_OPTIONS[quick])
+        nargs = rng.randrange(lo, max(lo + 1, min(301, entries - over - 60)))
         nmain = entries - over - nargs
     else:
         nmain = nopt
@@ -1261,7 +1277,7 @@ def big_ini_history(rng, hid, entries):
     twice, nested = rng.random() < 0.5, rng.random() < 0.4
     nsub = rng.randrange(2, 7)
     nargs = rng.choice([0, 0, 1, 3, 17])
-    ndecl_keys = rng.randrange(int(entries * 0.5), max(int(entries * 0.5) + 1, entries - 20 - nargs))
+    ndecl_keys = min(rng.randrange(int(entries * 0.5), max(int(entries * 0.5) + 1, entries - 20 - nargs)), rng.randrange(200, 300))
     ncopies = 2 if twice else 1
     nmain = max(1, ndecl_keys - ncopies * (nsub + (2 if nested else 0)))
     d, _, _ = large_decl(rng, nmain, nsub, twice, nested)
@@ -1276,6 +1292,7 @@ def big_ini_history(rng, hid, entries):
             sec, key = b"Options", b"-" + bytes([it.ch])
         t, v = ini_value(rng, it, d)
         present.append([sec, key, t, it, v])
+    dbl_texts = [e[2] for e in present if e[3].ty == "dbl"]
     expect = {}
     by_item = {id(e[3]): e for e in present}
     for it in items:                                      # item order decides which entry of a shared variable wins
@@ -1286,6 +1303,8 @@ def big_ini_history(rng, hid, entries):
         if rng.random() < 0.05:
             # the key twice: an earlier line with another valid value (dictionary_set must find and replace the entry)
             t0, _ = ini_value(rng, it, d)
+            if it.ty == "dbl":
+                dbl_texts.append(t0)
             lines.append((sec, key, t0, -1))
             lines.append((sec, key, t, 2))
         else:
@@ -1353,6 +1372,7 @@ def big_ini_history(rng, hid, entries):
     text = b"\n".join(out) + b"\n"
     h = History(hid, d, quiet=True)
     h.tags.add("large-ini")
+    h.dbl_texts = dbl_texts
     h.want_entries = entries
     h.op("file %s %s" % (hx(b"hand.ini"), hx(text)))
     h.op("load 0 %s" % hx(b"hand.ini"), ("load", 0, expect))
@@ -1368,15 +1388,97 @@ def large_histories(rng, hid0, quick):
     out, hid = [], hid0
     for T in DICT_DOUBLINGS:
         for delta in (-2, -1, 0, 1, 2):
-            out.append(large_roundtrip_history(rng, hid, entries=T + delta)); hid += 1
-    for _ in range(3 if quick else 40):
-        out.append(large_roundtrip_history(rng, hid, nopt=rng.randrange(100, 401), nargs=rng.randrange(0, 301))); hid += 1
+            out.append(large_roundtrip_history(rng, hid, quick, entries=T + delta)); hid += 1
+    for _ in range(3 if quick else 10):
+        out.append(large_roundtrip_history(rng, hid, quick, nopt=rng.randrange(100, LARGE_MAX_OPTIONS[quick] + 1), nargs=rng.randrange(0, 301))); hid += 1
+    if not quick:
+        for nopt in (300, 400):
+            out.append(large_roundtrip_history(rng, hid, quick, nopt=nopt, nargs=rng.randrange(0, 301))); hid += 1
     sizes = [T + delta for T in DICT_DOUBLINGS[:2] for delta in (-1, 0, 1, 2)] + [DICT_DOUBLINGS[2] + 1]
-    sizes += [rng.randrange(129, 700) for _ in range(3 if quick else 40)]
+    sizes += [rng.randrange(129, 700) for _ in range(3 if quick else 30)]
     if not quick:
         sizes += [1023, 1024, 1025, 1026]
     for n in sizes:
         out.append(big_ini_history(rng, hid, n)); hid += 1
+    return out
+
+
+# ---- iniparser's dictionary directly (dictionary_new / _set / _get / _unset): histories that cross every doubling ----
+# pairs of keys with the same dictionary_hash (found by search; if the hash function is ever changed they are ordinary keys)
+DICT_COLLISIONS = [(b"c:naaa", b"c:rdqe"), (b"c:naab", b"c:rdqf"), (b"c:naac", b"c:rdqg"), (b"c:naad", b"c:rdqh")]
+
+
+def dict_history(rng, hid, size0, peaks):
+    """dictionary_new (size0); for each peak: entries are added (with replacements, removals, lookups of present and absent keys
+    in between) until the dictionary holds `peak` entries, then every slot is printed and every key of the pool is looked up;
+    between two peaks a block of entries is removed, so that the next insertions re-use freed slots (the insertion loop wraps)."""
+    d = blank_decl(rng, "flat")
+    d.ops = []
+    h = History(hid, d)
+    h.tags.add("dictionary")
+    ref = {}
+    npool = max(peaks) + 30
+    style = rng.choice([b"sec%d:key%d", b"options:o%03d_%d", b"%d:%d", b"a:LongKeyName%04d-%d"])
+    pool = [style % (i % 7, i) for i in range(npool)] + [k for pr in DICT_COLLISIONS for k in pr] + [b"k\xc3\xa4y:\xff", b"arguments:count", b"arguments"]
+    rng.shuffle(pool)
+    fresh = list(pool)
+
+    def val():
+        r = rng.random()
+        return None if r < 0.12 else (b"" if r < 0.17 else rng.choice([b"v%d" % rng.randrange(1000), b"true", b"1.5e3", b"a b c", b"x" * rng.randrange(1, 40)]))
+
+    def dset(k):
+        v = val()
+        ref[k] = v
+        h.op("dset %s %s" % (hx(k), hx(v)), ("dict", len(ref), None, None))
+
+    def dunset(k):
+        ref.pop(k, None)
+        h.op("dunset %s" % hx(k), ("dict", len(ref), None, None))
+
+    def dget(k):
+        h.op("dget %s" % hx(k), ("dict", len(ref), "get", ref.get(k, "!")))
+
+    h.op("dnew %d" % size0, ("dict", 0, None, None))
+    for pi, peak in enumerate(peaks):
+        if pi > 0 and ref:
+            # remove a block: the oldest entries, or a random third
+            ks = list(ref.keys())
+            block = ks[:rng.randrange(1, max(2, len(ks) // 2))] if rng.random() < 0.5 else rng.sample(ks, max(1, len(ks) // 3))
+            for k in block:
+                dunset(k)
+                fresh.append(k)
+        while len(ref) < peak:
+            r = rng.random()
+            if r < 0.72 and fresh:
+                dset(fresh.pop())
+            elif r < 0.82 and ref:
+                dset(rng.choice(list(ref.keys())))                 # replace
+            elif r < 0.88 and ref and len(ref) > 2:
+                k = rng.choice(list(ref.keys()))
+                dunset(k)
+                fresh.insert(0, k)
+            elif r < 0.91:
+                dunset(rng.choice(fresh) if fresh else b"never:there")   # not present: nothing happens
+            else:
+                dget(rng.choice(pool))
+            if not fresh and len(ref) < peak:
+                break
+        h.op("dall", ("dict", len(ref), "all", dict(ref)))
+        for k in pool:
+            dget(k)
+    return h.end()
+
+
+def dict_histories(rng, hid0, quick):
+    out, hid = [], hid0
+    plans = [(0, [T + dl]) for T in (128, 256) for dl in (-2, -1, 0, 1, 2)]
+    plans += [(0, [129, 257, 513]), (0, [130, 120, 258, 1025]), (1, [127, 129]), (127, [128, 129, 257]), (128, [129]), (129, [129, 130, 259]), (200, [199, 201, 401]),
+              (0, [rng.randrange(129, 600), rng.randrange(129, 600)]), (rng.randrange(2, 400), [rng.randrange(100, 900)])]
+    if not quick:
+        plans += [(rng.choice([0, 0, 1, 64, 300]), sorted(rng.randrange(1, 2100) for _ in range(rng.randrange(1, 4)))) for _ in range(60)]
+    for size0, peaks in plans:
+        out.append(dict_history(rng, hid, size0, peaks)); hid += 1
     return out
 
 
@@ -1567,6 +1669,35 @@ def oracle(ctx, h, impl):
                         if not same:
                             viol("load:value", "sc_options_load: variable %d is %r, the file says %r" % (v, post.get(v), x))
                             break
+        elif kind == "dict":
+            judged += 1
+            m_ = re.match(r"(\w+) r=(-?\d+) \| n=(-?\d+) size=(-?\d+)(.*)$", line)
+            if not m_ or int(m_.group(2)) != 0:
+                viol("dictionary:return", "operation `%s` on iniparser's dictionary answered `%s`" % (h.lines[idx][:80], line[:120]))
+                continue
+            n_, size_, rest_ = int(m_.group(3)), int(m_.group(4)), m_.group(5).split()
+            if n_ != chk[2] or size_ < n_ or size_ < 128:
+                viol("dictionary:count", "after `%s` the dictionary reports n=%d size=%d; it holds %d entries" % (h.lines[idx][:80], n_, size_, chk[2]))
+            elif chk[3] == "get":
+                want = "v=!" if chk[4] == "!" else "v=" + hx(chk[4])
+                if rest_[:1] != [want]:
+                    viol("dictionary:get", "dictionary_get (%r) gives %s, the history says %s (%d entries, size %d)"
+                         % (unhx(h.lines[idx].split()[1]), rest_[:1], want, n_, size_))
+            elif chk[3] == "all":
+                got_ = {}
+                dup_ = False
+                for t_ in rest_:
+                    p_ = t_.split(":")
+                    if len(p_) != 3 or not re.match(r"^x([0-9a-f]{2})*$", p_[1]) or not re.match(r"^(-|x([0-9a-f]{2})*)$", p_[2]):
+                        dup_ = True            # a line cut short by a crash: reported as a content mismatch (and as the crash)
+                        continue
+                    _, k_, v_ = p_
+                    dup_ = dup_ or unhx(k_) in got_
+                    got_[unhx(k_)] = unhx(v_)
+                if dup_ or got_ != chk[4]:
+                    bad_ = [k_ for k_ in set(got_) | set(chk[4]) if got_.get(k_, "!") != chk[4].get(k_, "!")]
+                    viol("dictionary:content", "the slots of the dictionary (n=%d size=%d) do not hold the entries of the history: e.g. key %r is %r, expected %r%s"
+                         % (n_, size_, bad_[:1], got_.get(bad_[0], "absent") if bad_ else None, chk[4].get(bad_[0], "absent") if bad_ else None, "; a key sits in two slots (or the line is incomplete)" if dup_ else ""))
         elif kind == "ret":
             judged += 1
             if ret != chk[2]:
@@ -1670,6 +1801,40 @@ def oracle(ctx, h, impl):
     return judged
 
 
+def close_chain(tabs, kind, key):
+    """close the libc oracle tables under text -> bits -> "%.16g" text -> bits ..., the chain a save/load cycle follows"""
+    for _step in range(6):
+        if kind == "T":
+            bits, er = libc_strtod(unhx(key))
+            tabs["T " + key] = "T %s %x %d" % (key, bits, int(er))
+            kind, key = "F", "%x" % bits
+        else:
+            t = libc_fmt16(int(key, 16))
+            tabs["F " + key] = "F %s %s" % (key, hx(t))
+            kind, key = "T", hx(t)
+        if kind + " " + key in tabs:
+            break
+
+
+def seed_tables(tabs, hs):
+    """the large histories carry dozens of doubles each; the model reports one missing table entry per run, so their
+    entries are computed beforehand (the same libc calls the rounds would make)"""
+    for h in hs:
+        if not (h.tags & {"large-roundtrip", "large-ini"}):
+            continue
+        items = h.decl.objs[0]
+        for it in items:
+            if it.ty == "dbl" and it.init.startswith("d"):
+                close_chain(tabs, "F", it.init[1:])
+        for chk in h.checks:
+            if chk[1] == "parse":
+                for (k, arg) in ref_getopt(chk[3], items)[0]:
+                    if k is not None and items[k].ty == "dbl" and arg is not None:
+                        close_chain(tabs, "T", hx(arg))
+        for t in getattr(h, "dbl_texts", []):
+            close_chain(tabs, "T", hx(t))
+
+
 def translate_and_prove(ctx, groups):
     """T1 + proof obligations: regenerate the translator groups from the working tree, then re-check the theorems (which
     include `model = generated definition`).  A group that no longer translates, or a theorem that no longer checks against
@@ -1696,7 +1861,7 @@ def translate_and_prove(ctx, groups):
 
 
 def run(ctx):
-    translate_and_prove(ctx, ["OptionsC17"])
+    translate_and_prove(ctx, ["OptionsC17", "DictC17"])
     v = ctx.variant(mpi="off", san=True)
     exe = ctx.cc([os.path.join(vlib.TOOLS, "harness", "c17_harness.c")], os.path.join(ctx.scratch, "c17_harness"), v, extra=["-Wl,--wrap=getopt_long"])
     tmpdir = os.path.join(ctx.scratch, "files")
@@ -1711,6 +1876,7 @@ def run(ctx):
             hs.append(h)
     aimed = aimed_histories(rng, 1)
     aimed += large_histories(rng, 1 + len(aimed), ctx.quick)
+    aimed += dict_histories(rng, 1 + len(aimed), ctx.quick)
     hs += aimed
     nrand = 400 if ctx.quick else 12000
     hid = 1 + len(aimed)
@@ -1723,6 +1889,7 @@ def run(ctx):
                 continue
         hid += 1
     impl, crashes = run_harness(ctx, exe, tmpdir, hs)
+    ctx.log("library: %d histories run (%d aimed incl. %d large and dictionary histories)" % (len(hs), len(aimed), sum(1 for h in aimed if h.tags & {"large-roundtrip", "large-ini", "dictionary"})))
     byid = {h.hid: h for h in hs}
     for (hid_, what) in crashes:
         h = byid[hid_]
@@ -1737,50 +1904,53 @@ def run(ctx):
                 sig = "loadargs:heading-named-arguments-count"
         ctx.violation("crash:" + sig, "history %d: the library crashed (%s) in operation `%s`" % (hid_, what, failing[:200]),
                       dict(hist_to_json(h), sanitizer=what))
-    # model run on the same histories (+ recorded getopt events, + libc oracle tables for doubles)
-    minput = []
+    # model run on the same histories (+ recorded getopt events, + libc oracle tables for doubles).  The model reports the
+    # first table entry a history misses; the run is repeated with the completed tables for the histories that missed one
+    # (a history without ORACLE_MISS line is complete: the driver starts every history from the empty world)
+    minput = {}
     for h in hs:
         if h.hid in impl:
-            minput += model_input(h, impl[h.hid])
+            minput[h.hid] = model_input(h, impl[h.hid])
     tabs = {}
+    seed_tables(tabs, hs)
+    model = {}
     try:
         mexe = ctx.model("c17")
-        for _round in range(12):
-            text = "\n".join(list(tabs.values()) + minput) + "\n"
+        pending = [h.hid for h in hs if h.hid in minput]
+        for _round in range(14):
+            text = "\n".join(list(tabs.values()) + [l for hid_ in pending for l in minput[hid_]]) + "\n"
             rc2, mlines, err2 = ctx.run_lines([mexe], text, timeout=1200)
-            miss = sorted(set(l for l in mlines if l.startswith("ORACLE_MISS")))
             if rc2 != 0:
                 ctx.tie_broken("c17 model run", "exit %s: %s" % (rc2, err2[-1500:]))
                 break
-            if not miss:
+            got = {}
+            cur = None
+            for l in mlines:
+                if l.startswith("H "):
+                    cur = int(l.split()[1])
+                    got[cur] = [l]
+                elif cur is not None and l != "":
+                    got[cur].append(l)
+            miss = set()
+            still = []
+            for hid_ in pending:
+                m_ = [l for l in got.get(hid_, []) if l.startswith("ORACLE_MISS")]
+                if m_:
+                    miss.update(m_)
+                    still.append(hid_)
+                else:
+                    model[hid_] = got.get(hid_, [])
+            pending = still
+            if not pending:
                 break
-            for m in miss:
+            for m in sorted(miss):
                 _, kind, key = m.split()
-                # close the table under text -> bits -> "%.16g" text -> bits ..., the chain a save/load cycle follows
-                for _step in range(6):
-                    if kind == "T":
-                        bits, er = libc_strtod(unhx(key))
-                        tabs["T " + key] = "T %s %x %d" % (key, bits, int(er))
-                        kind, key = "F", "%x" % bits
-                    else:
-                        t = libc_fmt16(int(key, 16))
-                        tabs["F " + key] = "F %s %s" % (key, hx(t))
-                        kind, key = "T", hx(t)
-                    if kind + " " + key in tabs:
-                        break
+                close_chain(tabs, kind, key)
         else:
             ctx.tie_broken("c17 model run", "libc oracle tables did not converge")
     except vlib.BuildError as e:
         ctx.tie_broken("c17 model build", str(e)[-1500:])
-        mlines = []
-    model = {}
-    cur = None
-    for l in mlines:
-        if l.startswith("H "):
-            cur = int(l.split()[1])
-            model[cur] = [l]
-        elif cur is not None and l != "":
-            model[cur].append(l)
+    ctx.log("model: %d histories run, %d libc oracle table entries" % (len(model), len(tabs)))
     dist = {}
     ndis = 0
     judged = 0
@@ -1841,7 +2011,14 @@ def run(ctx):
                        "generated / mutated / random-byte files, load_args, errno perturbation, save -> load -> load_args -> save round trip; every parse starts "
                        "from a zero-filled stack, `dirty c` fills it with the byte c), plus aimed "
                        "histories at every numeric boundary text, boolean / key-value spelling, ini-unsafe string class, line-length boundary, and at each "
-                       "repaired defect; every output line (return value, all variables, saved text) is compared with the model; a history is non-trivial if "
+                       "repaired defect; large histories sized by the number of entries of iniparser's dictionary (sections + keys + count + arguments; it starts with 128 "
+                       "slots and doubles): 100..150 options (thorough: ..400) of mixed types with the same sub-options object under one or two prefixes and 0..400 "
+                       "arguments, parsed, saved, loaded into the fresh copy and compared value by value, at 126..130, 254..258, 510..514 entries and random sizes, each "
+                       "twice on the same objects; hand-written ini files with 127..1026 entries in split and permuted sections, keys in any case, repeated keys, "
+                       "undeclared keys, every declared key looked up, loaded into both copies; histories on iniparser's dictionary itself (dictionary_new with "
+                       "several initial sizes, set / replace / unset / get of present and absent keys incl. keys with equal hash, filled to 126..130, 254..258, 513, "
+                       "1025 entries, blocks removed and refilled, every slot printed and every key looked up at each peak); "
+                       "every output line (return value, all variables, saved text; n, size and the slots of the dictionary) is compared with the model; a history is non-trivial if "
                        "it contains at least one operation after the declarations; distinct = distinct history text")
     ctx.cov["exhaustive"] = False
     ctx.notes["history_tags"] = dist
@@ -1852,7 +2029,8 @@ def run(ctx):
     ctx.notes["roundtrip_guard_true_false"] = nguard
     for h in hs[:: max(1, len(hs) // 5)][:5]:
         ctx.sample({"history": h.hid, "tags": sorted(h.tags), "ops": [l[:80] for l in h.lines[-6:-1]]})
-    ctx.cov["trusted_base"] = ["T1: the range rules of the int / size_t / double conversions (.ini reader and command line), the boolean spellings, the switch increment, the getopt reset, the colon test of the loader and the heading / prefix decisions of sc_options_save are proved EQUAL to Gen/OptionsC17.v, regenerated from the working tree on every run (tools/c2g + tools/c2g/slicelib.py + clang-14 JSON AST trusted; strtol / strtod / strspn / strncmp / strrchr results and HUGE_VAL are symbolic parameters)",
+    ctx.cov["trusted_base"] = ["T1 (group DictC17): mem_double, the growth step / search loops / insertion loop / stores of dictionary_set, dictionary_get, the search and removal of dictionary_unset and the sizes of dictionary_new are proved EQUAL to Gen/DictC17.v, regenerated from iniparser/dictionary.c on every run (d->key / d->val / d->hash are read through functions of the slot index, strcmp (key, d->key[i]) and xstrdup are function parameters, the branch of a found key in dictionary_set is read as `break`, `if (++i == n)` as `++i; if (i == n)`; dictionary_hash is an arbitrary function of the key in every theorem and is not compared)",
+                               "T1: the range rules of the int / size_t / double conversions (.ini reader and command line), the boolean spellings, the switch increment, the getopt reset, the colon test of the loader and the heading / prefix decisions of sc_options_save are proved EQUAL to Gen/OptionsC17.v, regenerated from the working tree on every run (tools/c2g + tools/c2g/slicelib.py + clang-14 JSON AST trusted; strtol / strtod / strspn / strncmp / strrchr results and HUGE_VAL are symbolic parameters)",
                                "getopt_long of libc is an oracle: model and library consume the recorded event stream; GetoptModel.v is validated against it",
                                "strtod / \"%.16g\" of libc are oracle tables (Section variables in the theorems)",
                                "strtol model of OptionsModel.v: validated against libc on every run (op strtol) and through every int/size_t option",
